@@ -6,6 +6,7 @@ returns, a wrong status/body class or a broken follow-up exchange is a
 violation.  Thorough tier adds the broker binary over real TCP."""
 import json
 import os
+import re
 import random
 
 import brokerlib
@@ -38,11 +39,65 @@ def run_cases(chk, cases, tag):
             return vlib.run([binary, "-test.run", "TestVerifBrokerHTTP$", "-test.timeout", "900s"], cwd=d, env=env, timeout=1000), outp
         jobs.append(job)
     obs = {}
-    for r, outp in vlib.run_parallel(jobs):
-        if r.rc != 0 or r.timed_out:
-            raise vlib.Inconclusive("HTTP rig failed (rc=%s):\n%s" % (r.rc, r.out[-3000:]))
-        for o in vlib.read_ndjson(outp):
+    died_shards = []
+    for n, (r, outp) in enumerate(vlib.run_parallel(jobs)):
+        got = vlib.read_ndjson(outp) if os.path.exists(outp) else []
+        for o in got:
             obs[o["idx"]] = o
+        if r.rc != 0 or r.timed_out:
+            died_shards.append((r, [c for c in cases[n::shards] if c["idx"] not in obs]))
+    # a shard whose process died (a fatal error cannot be recovered inside the test binary, e.g. the
+    # runtime's "all goroutines are asleep" when a handler left a mutex locked): the case that was
+    # running is executed again alone; only a death that repeats there is attributed to it
+    budget = 3      # culprits examined alone (a hang costs two minutes each); what is left after that is not executed
+    attributed = 0
+    for r, rest in died_shards:
+        while rest:
+            culprit = rest[0]
+            budget -= 1
+            if budget < 0:
+                if not attributed:
+                    raise vlib.Inconclusive("HTTP rig keeps dying (rc=%s):\n%s" % (r.rc, r.out[-3000:]))
+                for c in rest:
+                    obs[c["idx"]] = {"idx": c["idx"], "skipped": True}
+                chk.note("%d request classes not executed: the broker died in %d others (reported)" % (len(rest), attributed))
+                break
+            one_in, one_out = os.path.join(d, "one-in.ndjson"), os.path.join(d, "one-out.ndjson")
+            vlib.write_ndjson(one_in, [{"idx": culprit["idx"], "req": culprit["req"]}])
+            if os.path.exists(one_out):
+                os.remove(one_out)
+            env = vlib.goenv({"VERIF_IN": one_in, "VERIF_OUT": one_out, "GODEBUG": "asynctimerchan=0", "VERIF_SEED": str(chk.seed)})
+            r1 = vlib.run([binary, "-test.run", "TestVerifBrokerHTTP$", "-test.timeout", "60s"], cwd=d, env=env, timeout=120)
+            if r1.rc == 0 and not r1.timed_out:
+                for o in vlib.read_ndjson(one_out):
+                    obs[o["idx"]] = o
+                if culprit["idx"] not in obs:
+                    raise vlib.Inconclusive("HTTP rig died (rc=%s) and the case running then gives no observation alone:\n%s" % (r.rc, r.out[-3000:]))
+            else:
+                kind = None
+                m = re.search(r"^(panic:|fatal error:).*$", r1.out, re.M)
+                asleep = "all goroutines are asleep" in r1.out
+                if m and not asleep and "test timed out" not in m.group(0) and brokerlib.product_crash(r1.out[m.start():]):
+                    kind = "crash in broker code: " + m.group(0)[:200]
+                elif asleep or r1.timed_out or "test timed out" in r1.out:
+                    sig, what = brokerlib.stuck_signature(r1.out)
+                    if sig != "stuck:mutex-wait[]/chan-wait[]":
+                        kind = ("deadlock" if asleep else "hang") + ": " + what
+                if not kind:
+                    raise vlib.Inconclusive("HTTP rig failed on case %d alone without a product frame (rc=%s):\n%s" % (culprit["idx"], r1.rc, r1.out[-3000:]))
+                obs[culprit["idx"]] = {"idx": culprit["idx"], "died": kind, "tail": r1.out[-1500:]}
+                attributed += 1
+            rest = rest[1:]
+            if rest:
+                vlib.write_ndjson(one_in, [{"idx": c["idx"], "req": c["req"]} for c in rest])
+                if os.path.exists(one_out):
+                    os.remove(one_out)
+                r = vlib.run([binary, "-test.run", "TestVerifBrokerHTTP$", "-test.timeout", "900s"], cwd=d, env=env, timeout=1000)
+                for o in (vlib.read_ndjson(one_out) if os.path.exists(one_out) else []):
+                    obs[o["idx"]] = o
+                rest = [c for c in rest if c["idx"] not in obs]
+                if r.rc == 0 and not r.timed_out and rest:
+                    raise vlib.Inconclusive("HTTP rig gave no observation for %d cases" % len(rest))
     return obs
 
 
@@ -61,6 +116,11 @@ def judge(chk, cases, obs):
         if o is None:
             raise vlib.Inconclusive("no observation for case %d" % c["idx"])
         rp = {"case": c, "observed": o}
+        if o.get("skipped"):
+            continue
+        if o.get("died"):
+            chk.violation(signature(req, "broker-died"), "the broker process died or hung while serving this request and the valid exchange after it: %s" % o["died"], rp)
+            continue
         if o.get("panic"):
             chk.violation(signature(req, "panic"), "handler panicked (net/http would reset the connection): %s" % o["panic"], rp)
         elif o.get("stuck") or not o.get("returned"):
